@@ -124,7 +124,7 @@ Proof. exact (oversize_frame_refused dec body rest). Qed.
 Definition ex_old := [1; 2; 3]%N.
 Definition ex_new := [9; 8; 7; 6]%N.
 Example c11_stable_nonvacuous : stable (fs_with "nflog" ex_old) "nflog".
-Proof. split; [reflexivity|split; [reflexivity|]]. vm_compute. eexists. reflexivity. Qed.
+Proof. split; [reflexivity|split; [reflexivity|]]. vm_compute. do 2 eexists. reflexivity. Qed.
 Example c11_crash_before_rename_keeps_old :
   content (recover_after (snapshot_ops "nflog.tmp" "nflog" ex_new) 4 (mkChoice 9 (fun _ => 9%nat)) (fs_with "nflog" ex_old)) "nflog"
   = Some ex_old.
@@ -145,6 +145,19 @@ Example c11_model_detects_in_place_write :
   content (recover_after [Create "nflog"; Write "nflog" ex_new; Fsync "nflog"; Close "nflog"] 2
              (mkChoice 1 (fun _ => 1%nat)) (fs_with "nflog" ex_old)) "nflog" = Some [9]%N.
 Proof. vm_compute. reflexivity. Qed.
+
+(* re-using a leftover temp file of an interrupted snapshot WITHOUT truncating it (a writable open without O_TRUNC,
+   fixed temp name): the next, shorter, completed snapshot keeps the tail of the leftover -> mixed file. With the
+   protocol's Create (fresh empty file) the same history gives exactly the new bytes. *)
+Definition ex_long := [1; 2; 3; 4; 5; 6; 7; 8]%N.
+Definition ex_leftover : fs :=
+  recover_after (snapshot_ops "t" "nflog" ex_long) 3 (mkChoice 1 (fun _ => 0%nat)) (fs_with "nflog" ex_old).
+Example c11_model_detects_temp_reuse_without_truncation :
+  content ex_leftover "t" = Some ex_long /\ content ex_leftover "nflog" = Some ex_old /\
+  content (run [OpenExisting "t"; Write "t" ex_new; Fsync "t"; Close "t"; Rename "t" "nflog"] ex_leftover) "nflog"
+  = Some [9; 8; 7; 6; 5; 6; 7; 8]%N /\
+  content (run (snapshot_ops "t" "nflog" ex_new) ex_leftover) "nflog" = Some ex_new.
+Proof. vm_compute. repeat split; reflexivity. Qed.
 
 (* the hypotheses of the codec theorems are met by a non-trivial store content *)
 Definition ex_entry : wmesh :=
